@@ -44,7 +44,7 @@ def check_parse(rep, prog):
     import collections
     from ..terms import evaluate, CannotEval
     HF = collections.namedtuple("HistoryLogField", ["name", "size"])
-    tables = [[], [HF("a", 1)], [HF("first", 2), HF("second field", 1), HF("third-3", 2), HF("x.y", 1)],
+    tables = [[HF("a_field_with_a_description_much_longer_than_usual_0123456789", 2), HF("b" * 26, 1), HF("c" * 25, 1)], [], [HF("a", 1)], [HF("first", 2), HF("second field", 1), HF("third-3", 2), HF("x.y", 1)],
               [HF("w1", 1), HF("w2", 2), HF("w4", 4), HF("w1b", 1), HF("w2b", 2)], [HF("n%d" % i, 1 + i % 2) for i in range(12)]]
     logs = [b"", b"\x00", b"\x07", b"\x00\x00\x00", b"\x01\x02\x03", b"\x00\x10\x00\x00\x05\x09", b"\xff" * 5, bytes(range(1, 9)),
             b"\x00\x00\x01\x00\x00\x00\x00\x02\x00\x00", bytes((i * 7) % 5 for i in range(20))]
@@ -159,7 +159,8 @@ def check_fields(rep, prog):
     sample = [("// generated\n", O), ('  { 1, "before_the_array" },\n', O),
               ("static struct mex_hlog_field mex_hlog_fields[MEX_HLOG_FIELD_COUNT] =\n", S), ("{\n", O),
               ('  { 1, "hl_one" },\n', ("hl_one", 1)), ('  {2,"hl two.words-x"} ,\n', ("hl two.words-x", 2)), ("  // comment\n", O),
-              ('  { 3, "too_wide" },\n', O), ('  { 1, " padded name " }\n', (" padded name ", 1)), ("};\n", E),
+              ('  { 3, "too_wide" },\n', O), ('  { 1, "path//name /* x */ #1" },\n', ("path//name /* x */ #1", 1)),
+              ('  { 1, "with_trailing_comment" }, // not a field row\n', O), ('  { 1, " padded name " }\n', (" padded name ", 1)), ("};\n", E),
               ('  { 2, "after_the_array" },\n', O), ("#ifdef VARIANT\n", O),
               ("struct mex_hlog_field mex_hlog_fields[] = {\n", S), ('{ 2, "second_block" },\n', ("second_block", 2)), ("  } ;\n", E),
               ('  { 1, "after_second" },\n', O)]
